@@ -283,6 +283,7 @@ def run(ctx):
     _args(ctx, repo)
     _reader_defaults(ctx, repo)
     _circuit_op_serializer(ctx, repo)
+    _proto_escape(ctx, repo)
 
 
 # ---------------------------------------------------------------------------
@@ -950,3 +951,151 @@ def _circuit_op_serializer(ctx, repo):
     ctx.ob('C16.g', 'CircuitOpSerializer.to_proto:repetition-ids-arm:sign', guard,
            '' if guard else 'an operation with custom repetition_ids and negative repetitions is written as the list of ids only; the reader recovers repetitions = len(ids): '
            'CircuitOperation(c, repetitions=-2, repetition_ids=["a","b"]) comes back with repetitions=+2 (the inverse is lost)', ws.mod.rel, arms[0].lineno)
+
+
+_COPYING = {'tuple', 'list', 'set', 'frozenset', 'sorted', 'len', 'any', 'all', 'enumerate', 'zip', 'map', 'sum', 'min', 'max', 'dict', 'reversed', 'iter', 'bool', 'str', 'repr',
+            'array', 'asarray', 'reduce', 'reshape', 'join'}
+
+
+def _proto_escape(ctx, repo):
+    """C16.h - a repeated proto field never becomes the state of a deserialized Cirq value: it is copied into a tuple/list first.
+
+    A RepeatedScalarContainer compares unequal to the tuple the original object held, is not hashable or JSON-serializable, and stays tied to the message it came from.
+    """
+    import glob as _glob
+    import os as _os
+    ctx.decided.append('C16.h readers copy repeated proto fields (tuple/list/comprehension) before handing them to a constructor that stores its argument as given')
+    ctx.rule('C16.h', 'no live proto container in a deserialized value: in every cirq_google function with a parameter of a generated message type, an expression that resolves '
+             '(through the .proto schemas) to a repeated field and is passed as an argument to the constructor of a repository class is wrapped in a copying call, unless that '
+             'constructor itself copies the parameter', floor=4, style='TNT')
+    msgs = {}
+    proto_dir = 'cirq-google/cirq_google/api/v2'
+    rels = [r for r in (f'{proto_dir}/{n}' for n in ('program.proto', 'run_context.proto', 'result.proto', 'device.proto', 'ndarrays.proto', 'metrics.proto', 'calibration.proto'))
+            if repo.exists(r)]
+    if len(rels) < 3:
+        raise AnalysisError('C16.h: .proto schemas not found')
+    for r in rels:
+        msgs.update(proto.parse(repo.read_text(r)))
+
+    def typeof_ann(ann):
+        if ann is None:
+            return None
+        t = ast.unparse(ann).strip('\'"')
+        nm = t.split('.')[-1]
+        return msgs[nm] if '_pb2' in t and nm in msgs else None
+
+    def resolve(expr, env):
+        if isinstance(expr, ast.Name):
+            return env.get(expr.id)
+        if isinstance(expr, ast.Attribute):
+            b = resolve(expr.value, env)
+            if b and b[0] == 'msg':
+                f = b[1].fields.get(expr.attr)
+                if f is None:
+                    return None
+                if f['map']:
+                    return ('rep', f, 'map')
+                sub = proto.find(msgs, f['type'], b[1])
+                if f['repeated']:
+                    return ('rep', f, sub)
+                return ('msg', sub) if sub else None
+        if isinstance(expr, ast.Subscript):
+            b = resolve(expr.value, env)
+            if b and b[0] == 'rep' and b[2] not in (None, 'map'):
+                return ('msg', b[2])
+        return None
+
+    def ctor_copies(ci, pname, pos):
+        """the class's constructor copies parameter `pname` (or positional index pos) before storing it"""
+        found = repo.find_method(ci, '__init__')
+        if not found:
+            return False  # dataclass / attrs field: stored as given
+        init = found[1]
+        params = [a.arg for a in init.args.args][1:]
+        if pname is None:
+            if pos >= len(params):
+                return True
+            pname = params[pos]
+        if pname not in params + [a.arg for a in init.args.kwonlyargs]:
+            return True  # swallowed by **kwargs: not ours to judge
+        for st in ast.walk(init):
+            if isinstance(st, (ast.Assign, ast.AnnAssign)) and st.value is not None:
+                tg = st.targets[0] if isinstance(st, ast.Assign) else st.target
+                if isinstance(tg, ast.Attribute) and isinstance(tg.value, ast.Name) and tg.value.id == 'self':
+                    v = st.value
+                    # stored raw: `self.x = p`, `self.x = p or d`, `self.x = d if p is None else p`
+                    raw = [x for x in ([v] + (list(v.values) if isinstance(v, ast.BoolOp) else []) + ([v.body, v.orelse] if isinstance(v, ast.IfExp) else []))
+                           if isinstance(x, ast.Name) and x.id == pname]
+                    if raw:
+                        return False
+        # rebinding `p = ... p ...` without a copying call followed by a raw store is not tracked; absence of a raw store counts as copying
+        return True
+    n = 0
+    for m in sorted(repo.modules.values(), key=lambda x: x.rel):
+        if not m.rel.startswith('cirq-google/') or m.rel.endswith('_test.py') or '_pb2' in m.rel:
+            continue
+        par = None
+        for fn in [f for f in ast.walk(m.tree) if isinstance(f, ast.FunctionDef)]:
+            env = {}
+            for a in fn.args.args + fn.args.kwonlyargs:
+                t = typeof_ann(a.annotation)
+                if t:
+                    env[a.arg] = ('msg', t)
+            if not env:
+                continue
+            grew = True
+            while grew:
+                grew = False
+                for s in ast.walk(fn):
+                    if isinstance(s, ast.Assign) and len(s.targets) == 1 and isinstance(s.targets[0], ast.Name) and s.targets[0].id not in env:
+                        r = resolve(s.value, env)
+                        if r:
+                            env[s.targets[0].id] = r
+                            grew = True
+                    if isinstance(s, ast.NamedExpr) and s.target.id not in env:
+                        r = resolve(s.value, env)
+                        if r:
+                            env[s.target.id] = r
+                            grew = True
+                    if isinstance(s, (ast.For, ast.comprehension)) and isinstance(s.target, ast.Name) and s.target.id not in env:
+                        r = resolve(s.iter, env)
+                        if r and r[0] == 'rep' and r[2] not in (None, 'map'):
+                            env[s.target.id] = ('msg', r[2])
+                            grew = True
+            # a local re-bound to a copy of itself (`x = list(x)`) is safe from there on; any other mixture of definitions keeps the may-be-container verdict
+            for s in ast.walk(fn):
+                if isinstance(s, ast.Assign) and len(s.targets) == 1 and isinstance(s.targets[0], ast.Name) and s.targets[0].id in env \
+                        and env[s.targets[0].id][0] == 'rep' and isinstance(s.value, ast.Call) and (call_name(s.value) or '') in ('list', 'tuple') \
+                        and s.value.args and isinstance(s.value.args[0], ast.Name) and s.value.args[0].id == s.targets[0].id:
+                    env[s.targets[0].id] = ('copied-in-place',)
+
+            def classify(a):
+                if isinstance(a, (ast.Name, ast.Attribute)):
+                    r = resolve(a, env)
+                    return ('raw', r) if r and r[0] == 'rep' and r[2] != 'map' else None
+                if isinstance(a, ast.Call) and (call_name(a) or '').split('.')[-1] in ('tuple', 'list', 'frozenset', 'set', 'sorted') and a.args:
+                    inner = classify(a.args[0])
+                    return ('copied', inner[1]) if inner else None
+                if isinstance(a, (ast.ListComp, ast.GeneratorExp, ast.SetComp)):
+                    r = resolve(a.generators[0].iter, env) if isinstance(a.generators[0].iter, (ast.Name, ast.Attribute)) else None
+                    return ('copied', r) if r and r[0] == 'rep' and r[2] != 'map' else None
+                return None
+            for c in ast.walk(fn):
+                if not isinstance(c, ast.Call):
+                    continue
+                cands = [(None, i, a) for i, a in enumerate(c.args)] + [(k.arg, None, k.value) for k in c.keywords if k.arg]
+                for kw, pos, a in cands:
+                    cl = classify(a)
+                    if cl is None:
+                        continue
+                    ci = repo.resolve_class(m, c.func)
+                    if ci is None or '_pb2' in ci.mod.rel:
+                        continue  # a function or a proto message: not the constructor of a Cirq value
+                    n += 1
+                    ok = cl[0] == 'copied' or ctor_copies(ci, kw, pos if pos is not None else 0)
+                    ctx.ob('C16.h', f'{m.name}.{fn.name}:{ci.name}({kw if kw else pos})', ok,
+                           '' if ok else f'{ci.name}(... {kw if kw else pos}={ast.unparse(a)}) stores the live repeated field of the message being read: the '
+                           'deserialized object holds a protobuf container where the original held a tuple/list (unequal to a tuple, unhashable, not JSON-serializable)',
+                           m.rel, c.lineno, construct=f'{m.name}.{fn.name}')
+    if n == 0:
+        raise AnalysisError('C16.h: no repeated proto field reaches a constructor or a copying call: the schema resolution is broken')
